@@ -577,6 +577,73 @@ func canonGo(v value.Value) string {
 
 func (v *cv) canon() string { return canonGo(v.build()) }
 
+// lit renders the value as a constant expression of the language (false: closures cannot be written down)
+func (v *cv) lit() (string, bool) {
+	switch v.Kind {
+	case 'i':
+		if v.I < 0 {
+			if v.I == math.MinInt64 {
+				return "(0-9223372036854775807-1)", true
+			}
+			return "(0-" + strconv.FormatInt(-v.I, 10) + ")", true
+		}
+		return strconv.FormatInt(v.I, 10), true
+	case 'f':
+		switch {
+		case math.IsNaN(v.F):
+			return "(0.0/0.0)", true
+		case math.IsInf(v.F, 1):
+			return "(1.0/0.0)", true
+		case math.IsInf(v.F, -1):
+			return "((0.0-1.0)/0.0)", true
+		}
+		t := strconv.FormatFloat(math.Abs(v.F), 'f', -1, 64)
+		if !strings.Contains(t, ".") {
+			t += ".0"
+		}
+		if math.Signbit(v.F) {
+			return "(0.0-" + t + ")", true
+		}
+		return t, true
+	case 's':
+		return "\"" + strings.NewReplacer("\\", "\\\\", "\"", "\\\"", "\n", "\\n", "\t", "\\t", "\r", "\\r").Replace(v.S) + "\"", !strings.ContainsAny(v.S, "\x00")
+	case 'b':
+		if v.B {
+			return "true", true
+		}
+		return "false", true
+	case 'L':
+		var parts []string
+		for _, it := range v.Items {
+			t, ok := it.lit()
+			if !ok {
+				return "", false
+			}
+			parts = append(parts, t)
+		}
+		return "[" + strings.Join(parts, ",") + "]", true
+	case 'M':
+		var parts []string
+		for i, it := range v.Items {
+			t, ok := it.lit()
+			if !ok || strings.ContainsAny(v.Keys[i], "'\n\x00") {
+				return "", false
+			}
+			parts = append(parts, "'"+v.Keys[i]+"':"+t)
+		}
+		// duplicate keys are rejected by the literal
+		seen := map[string]bool{}
+		for _, k := range v.Keys {
+			if seen[k] {
+				return "", false
+			}
+			seen[k] = true
+		}
+		return "{" + strings.Join(parts, ",") + "}", true
+	}
+	return "", false
+}
+
 func indexIn(args []*cv, v value.Value) string {
 	c := canonGo(v)
 	for i, a := range args {
@@ -1245,6 +1312,167 @@ func runC14(c *Ctx) {
 
 	// ---- all ordered pairs x all operators on the real code
 	r.fillTables()
+	// ---- the same operators on CONSTANT operands (the optimizer folds them while the function is generated, and has rules
+	// of its own for a constant switch): the folded outcome is the outcome on arguments
+	{
+		fgC := newValueFG(true)
+		outcomeOf := func(src string) byte {
+			defer func() { recover() }()
+			f, _, err := fgC.Generate(src)
+			if err != nil {
+				return 'E'
+			}
+			return outBool(f.Eval())
+		}
+		stride := c.Pick(5, 1)
+		for i := 0; i < n; i++ {
+			la, oka := r.pool[i].lit()
+			if !oka || r.pool[i].isRandomOrderMap() {
+				continue
+			}
+			for j := 0; j < n; j++ {
+				if (i*31+j)%stride != 0 || r.pool[j].isRandomOrderMap() {
+					continue
+				}
+				lb, okb := r.pool[j].lit()
+				if !okb {
+					continue
+				}
+				c.Count("constant-operands-pair")
+				for op := range c14Ops {
+					if r.R[op][i][j] == '?' {
+						continue
+					}
+					crumb("constant " + la + " " + c14Ops[op] + " " + lb)
+					if got := outcomeOf(la + " " + c14Ops[op] + " " + lb); got != r.R[op][i][j] {
+						flipEF := (got == 'E' && r.R[op][i][j] == 'F') || (got == 'F' && r.R[op][i][j] == 'E')
+						if op == opNe { // != negates =
+							flipEF = (got == 'E' && r.R[op][i][j] == 'T') || (got == 'T' && r.R[op][i][j] == 'E')
+						}
+						if flipEF && op == 6 && r.pool[i].Kind == 'L' {
+							c.Count("tilde-list-lhs:error-vs-false-by-materialisation") // see the same-operands pass
+							continue
+						}
+						if flipEF && (r.pool[i].hasMap() || r.pool[j].hasMap()) {
+							// the listed finding: Map.Equals leaves at the first difference it meets in ITS iteration order, so a
+							// differing entry and an incomparable one give false or an error depending on the representation
+							c.Violation("map-eq-mixed-error", fmt.Sprintf("a %s b on constant operands is %c, on arguments %c", c14Ops[op], got, r.R[op][i][j]), r.replay(la+" "+c14Ops[op]+" "+lb, r.pool[i], r.pool[j]))
+							continue
+						}
+						c.Violation("constant-operands-differ", fmt.Sprintf("a %s b on constant operands is %c, on arguments %c", c14Ops[op], got, r.R[op][i][j]),
+							r.replay(la+" "+c14Ops[op]+" "+lb, r.pool[i], r.pool[j]))
+					}
+				}
+				// switch: selects the case exactly if = says true, fails exactly if = fails
+				want := map[byte]byte{'T': 'T', 'F': 'F', 'E': 'E'}[r.R[opEq][i][j]]
+				for _, form := range []string{"switch " + la + " case " + lb + " : true default false", "let c0 = " + la + "; switch c0 case " + lb + " : true default false",
+					"let c0 = " + la + "; let c1 = " + lb + "; switch c0 case c1 : true default false"} {
+					if got := outcomeOf(form); want != 0 && got != want {
+						if ((got == 'E' && want == 'F') || (got == 'F' && want == 'E')) && (r.pool[i].hasMap() || r.pool[j].hasMap()) {
+							c.Violation("map-eq-mixed-error", fmt.Sprintf("a constant switch selects %c, a = b on arguments is %c", got, r.R[opEq][i][j]), r.replay(form, r.pool[i], r.pool[j]))
+							continue
+						}
+						c.Violation("constant-switch-differs", fmt.Sprintf("a constant switch selects %c, a = b is %c", got, r.R[opEq][i][j]), r.replay(form, r.pool[i], r.pool[j]))
+					}
+				}
+			}
+		}
+	}
+	// ---- maps built by the library (bins of a binning incl. the two open-ended ones, a function-backed map with a declared
+	// but unavailable key, a struct wrapper): = against literal maps with the same entries, one entry more (also the keys
+	// such a map hides) and one entry less is symmetric, and true exactly for the same entries
+	{
+		fgL := newValueFG(true)
+		evalV := func(src string) value.Value {
+			f, _, err := fgL.Generate(src)
+			if err != nil {
+				fatal("C14 library maps: %v", err)
+			}
+			v, err := f.Eval()
+			if err != nil {
+				fatal("C14 library maps: %v", err)
+			}
+			return v
+		}
+		var libMaps []value.Map
+		var libNames []string
+		if l, ok := evalV("[0.5, 1.5, 2.5].binning(1, 1, 1, x -> x, x -> 1).descr").(*value.List); ok {
+			for it, err := range l.Iterate(funcGen.NewEmptyStack[value.Value]()) {
+				if m, isMap := it.(value.Map); err == nil && isMap {
+					libMaps = append(libMaps, m)
+					libNames = append(libNames, fmt.Sprintf("bin %d of [0.5,1.5,2.5].binning(1,1,1,…).descr", len(libMaps)-1))
+				}
+			}
+		}
+		facL := value.NewFuncMapFactory[value.Int](func(k value.Int, key string) (value.Value, bool) {
+			switch key {
+			case "zeta":
+				return k, true
+			case "alpha":
+				return k + 1, true
+			}
+			return nil, false
+		}, "zeta", "alpha") // every declared key is available (the contract of a function-backed map, see C13)
+		libMaps = append(libMaps, facL.Create(1), buildMap([]string{"x", "y"}, []value.Value{value.Int(1), value.Int(2)}, 7))
+		libNames = append(libNames, "function-backed map", "struct wrapper")
+		eqv := func(a, b value.Value) byte { return outBool(r.im.opFn[opEq].Eval(a, b)) }
+		for mi, lm := range libMaps {
+			var ks []string
+			var vs []value.Value
+			lm.Iter(func(k string, v value.Value) bool { ks = append(ks, k); vs = append(vs, v); return true })
+			type cand struct {
+				name string
+				m    value.Map
+				same bool
+			}
+			cands := []cand{{"the same entries", buildMap(ks, vs, 0), true}, {"the same entries (hash map)", buildMap(ks, vs, 3), true}}
+			for _, extra := range []string{"min", "max", "ghost", "zz"} {
+				has := false
+				for _, k := range ks {
+					has = has || k == extra
+				}
+				if !has {
+					for _, ev := range []value.Value{value.Float(0), value.Int(0), value.Int(2)} {
+						cands = append(cands, cand{"one entry more: " + extra, buildMap(append(append([]string{}, ks...), extra), append(append([]value.Value{}, vs...), ev), 0), false})
+					}
+				}
+			}
+			if len(ks) > 0 {
+				cands = append(cands, cand{"one entry less", buildMap(ks[1:], vs[1:], 0), false})
+			}
+			// the same size, one key replaced by a key the map does not show
+			for ki := range ks {
+				for _, hidden := range []string{"min", "max", "ghost", "zz"} {
+					has := false
+					for _, k := range ks {
+						has = has || k == hidden
+					}
+					if has {
+						continue
+					}
+					for _, hv := range []value.Value{value.Float(0), value.Int(0), vs[ki]} {
+						k2 := append([]string{}, ks...)
+						v2 := append([]value.Value{}, vs...)
+						k2[ki], v2[ki] = hidden, hv
+						cands = append(cands, cand{"key " + ks[ki] + " replaced by " + hidden, buildMap(k2, v2, 0), false})
+					}
+				}
+			}
+			for _, cd := range cands {
+				ab, ba := eqv(lm, cd.m), eqv(cd.m, lm)
+				c.Case(fmt.Sprintf("library-map|%d|%s", mi, cd.name), true)
+				c.Count("library-map-equality")
+				want := byte('F')
+				if cd.same {
+					want = 'T'
+				}
+				if ab != ba || ab != want {
+					c.Violation("eq-library-built-map", fmt.Sprintf("%s against a literal map with %s: a = b is %c, b = a is %c, key-wise %c", libNames[mi], cd.name, ab, ba, want),
+						map[string]any{"library_map": libNames[mi], "entries": strings.Join(ks, ","), "candidate": cd.name})
+				}
+			}
+		}
+	}
 	// ---- the operators are observers: evaluated repeatedly on the SAME operand values (built once) they give the
 	// outcomes they give on fresh operands, and leave both operands as they were
 	for i := 0; i < n; i++ {
